@@ -80,13 +80,12 @@ _POSTYPE = st.sampled_from(['float', 'intlist', 'int64', 'int32'])
 _PBCROT = st.integers(0, 15)
 _PBCSPELL = st.sampled_from(['list', 'tuple', 'array'])
 _ROUTE = st.sampled_from(['func', 'func', 'func', 'func', 'sys_pos', 'sys_idx', 'sys_idx', 'sys_mix'])
-_IDX = st.sampled_from(['int', 'list', 'array', 'slice', 'neg', 'npint', 'mask', 'int', 'list', 'array', 'slice', 'neg', 'npint', 'mask',
-                        'i8arr', 'u8arr', 'bearr', 'u64s', 'i16neg'])
+_IDX = st.sampled_from(['int', 'list', 'array', 'slice', 'neg', 'npint', 'mask'] * 4 + ['i8arr', 'u8arr', 'bearr', 'u64s', 'i16neg'])
 _BOOL = st.booleans()
-_FDTYPE = st.sampled_from(['f64', 'f64', 'f64', 'f64', 'f64', 'f32', 'f32', 'f16', 'f64', 'f64be', 'f32be'])
+_FDTYPE = st.sampled_from(['f64'] * 8 + ['f32'] * 3 + ['f16'] * 2 + ['f64be'] * 2 + ['f32be'])
 # whole-number Cartesian positions (kind intcart): integer-typed spellings favoured
 _SPELL_WHOLE = st.sampled_from(['intlist', 'intarray', 'narrowint', 'narrowint', 'narrowint', 'npscalars', 'array', 'list', 'fview',
-                                'readonly', 'forder', 'tuple'])
+                                'readonly', 'forder', 'tuple', 'narrowint', 'narrowint', 'npscalars', 'narrowint'])
 IDTYPES = ('i1', 'u1', 'i2', 'u2', '>i2', 'i4', 'u4', '>i4', '>u4', 'i8', 'u8', '>i8', 'bool')
 _IDT = st.sampled_from(IDTYPES + ('i1', 'u1', 'u2', 'u8'))
 _LIM = st.sampled_from(['hi', 'hi', 'lo', None])
@@ -502,7 +501,7 @@ _DHOW = st.sampled_from(['vects=', 'set_vects', 'set_avect', 'sys_box_set', 'sys
 _DSETPOS = st.sampled_from(['slice', 'attr', 'prop', 'prop_scaled', 'view', 'keep'])
 # floating dtype in which the positions of system 0 / system 1 are stored (Atoms keeps a float32 / float16 pos dtype)
 _FSTORE = st.sampled_from([None, None, None, None, None, None, ['f32', 'f32'], ['f32', 'f32'], ['f32', 'f64'], ['f64', 'f32'],
-                           ['f16', 'f16'], ['f16', 'f32'], None, ['f64be', 'f64be'], ['f32be', 'f32be'], ['f64be', 'f32']])
+                           ['f16', 'f16'], ['f16', 'f32'], ['f16', 'f16'], ['f64be', 'f64be'], ['f32be', 'f32be'], ['f64be', 'f32']])
 
 
 def _whole(x):
@@ -519,7 +518,9 @@ def displacement_cases(draw):
     same Box / System objects are then turned into the systems of the case; 'fstore': None or the floating dtypes
     ('f64'|'f32'|'f16') in which the two systems STORE their positions (the oracle judges the positions the systems really
     hold, which are exact numbers); 'after': whether displacement() is also called (and judged) for the other reference cells
-    before every result handed out earlier is compared with its snapshot."""
+    before every result handed out earlier is compared with its snapshot; 'special': None | 'decades' (the atoms move by
+    10^0..10^-14 of the cell in ONE call, both systems in the same cell) | 'tie' (by almost exactly half a cell vector);
+    'reuse': the caller-side mutation stage (see the module docstring); cell0 / cell1 may carry 'sym'."""
     c0 = dict(draw(_CELLS_MILD if draw(_BOOL) else _CELLS))
     c0['sym'] = _sym(draw)          # the exactly structured version of the cell (kept by the 'same' / 'strained' cell of system 1)
     mode = draw(_MODE)
@@ -540,11 +541,15 @@ def displacement_cases(draw):
             rel1.append(draw(_PT_IN))
         else:   # displaced and wrapped back into the cell: the realistic use of displacement()
             rel1.append([round((rel0[i][j] + draw(_SMALL)) % 1.0, 6) for j in range(3)])
-    special = draw(_TEN)
-    if special == 0 and n >= 2:
-        # displacements of the atoms spanning 8+ orders of magnitude in ONE call (a relaxed crystal: most atoms hardly move)
+    special = {0: 'decades', 1: 'decades', 2: 'tie'}.get(draw(_TEN))
+    if special == 'decades' and n < 2:
+        special = None
+    if special == 'decades':
+        # displacements of the atoms spanning 8+ orders of magnitude in ONE call (a relaxed crystal: most atoms hardly move);
+        # both systems in the same cell, or relative coordinates that differ by 1e-12 would not be positions that do
         rel1 = _decade_rows(draw, n, rel0)
-    elif special == 1:
+        c1, mode = dict(c0), 'same'
+    elif special == 'tie':
         # displaced by almost exactly half a cell vector: the direct separation and its image are almost equally long
         rel0 = [[min(v, 0.45) for v in q] for q in rel0]
         rel1 = [_near_tie_point(draw, q) for q in rel0]
@@ -583,6 +588,40 @@ def displacement_cases(draw):
             case['hist'][k] = dict(case['hist'][k], scale=scale if draw(_TEN) < 8 else draw(_SCALE))
     case['fstore'] = draw(_FSTORE)
     case['after'] = draw(_BOOL)
-    case['special'] = None if (case['cart'] or (special == 0 and n < 2)) else {0: 'decades', 1: 'tie'}.get(special)
+    case['special'] = None if case['cart'] else special
     case['reuse'] = draw(_REUSE)
     return case
+
+
+# ----------------------------------------------------------------------------- enumerated option pairs
+# The options of the five entry points that touch the same state: the periodicity (8 settings; System.dvect / System.dmag /
+# displacement read it from a System, the free functions are given it) and the entry point itself (for displacement with its
+# reference cell).  Every ORDERED pair of (entry point, periodicity) states is run on the same objects, then the first again.
+
+H_ENTRIES = ('dvect', 'dmag', 'sys_dvect', 'sys_dmag', 'disp_final', 'disp_default', 'disp_initial', 'disp_none')
+H_CELLS = (
+    # triclinic, rotated, shifted origin
+    {'lx': 3.25, 'ly': 4.5, 'lz': 2.75, 'xy': 1.5, 'xz': -1.25, 'yz': 2.0, 'origin': [1.5, -2.25, 0.75], 'rot': [[1, 2, -1], 37.5],
+     'lefthanded': False, 'sym': None, 'scale': 1.0},
+    # the exactly structured one: upper-triangular with a negative diagonal entry, in metres
+    {'lx': 4.0, 'ly': 2.5, 'lz': 3.0, 'xy': -1.0, 'xz': 1.5, 'yz': 0.75, 'origin': [0.0, 0.0, 0.0], 'rot': None,
+     'lefthanded': False, 'sym': {'perm': [2, 1, 0], 'axes': [2, 1, 0], 'signs': [1, -1, 1]}, 'scale': 1e-10},
+    # orthogonal, relabelled
+    {'lx': 2.0, 'ly': 5.0, 'lz': 3.5, 'xy': 0.0, 'xz': 0.0, 'yz': 0.0, 'origin': [-4.0, 1.0, 2.0], 'rot': None,
+     'lefthanded': False, 'sym': {'perm': [1, 2, 0], 'axes': [1, 2, 0], 'signs': [1, 1, 1]}, 'scale': 1.0},
+    # monoclinic, large unit
+    {'lx': 6.0, 'ly': 3.0, 'lz': 4.0, 'xy': 0.0, 'xz': 2.5, 'yz': 0.0, 'origin': [0.5, 0.5, 0.5], 'rot': [[0, 0, 1], 90.0],
+     'lefthanded': False, 'sym': None, 'scale': 1000.0},
+)
+
+
+def option_pair_cases(tier):
+    ncell = 2 if tier == 'quick' else len(H_CELLS)
+    out = []
+    for c in range(ncell):
+        for a in range(len(H_ENTRIES)):
+            for pa in range(8):
+                for b in range(len(H_ENTRIES)):
+                    for pb in range(8):
+                        out.append({'cell': c, 'a': H_ENTRIES[a], 'pa': pa, 'b': H_ENTRIES[b], 'pb': pb})
+    return out
